@@ -2,11 +2,23 @@
 // Plain map is one level key map. It contains keys like "lvl1.lvl2".
 package plainmap
 
-import "strings"
+import (
+	"bytes"
+	"encoding/json"
+)
 
 // Any represent any type
 type Any interface{}
 
+// formatStringJSON return s as a JSON string literal (quotes, backslashes and
+// control characters are escaped)
 func formatStringJSON(s string) string {
-	return "\"" + strings.Replace(s, "\"", "\\\"", -1) + "\""
+	buf := &bytes.Buffer{}
+	encoder := json.NewEncoder(buf)
+	encoder.SetEscapeHTML(false)
+	if err := encoder.Encode(s); err != nil {
+		// a string is always encodable
+		panic(err)
+	}
+	return string(bytes.TrimRight(buf.Bytes(), "\n"))
 }
